@@ -278,6 +278,25 @@ def scenario_list():
     w['ak'] = {'root': [dict(key='CA1', ca=True, principals=['root'])]}
     S.append(('cert_no_principals_vs_principals_option', w, [
         ('req', dict(user='root', method='publickey', key='cert:C2', signed=True)), ('settle',), ('complete', 0), ('settle',)]))
+    # certificate of a trusted CA whose principals do not include the user (no principals= option on the entry)
+    w = E.default_world()
+    w['ak'] = {'alice': [dict(key='CA1', ca=True)]}
+    S.append(('cert_wrong_principal', w, [
+        ('req', dict(user='alice', method='publickey', key='cert:C3', signed=True)), ('settle',), ('complete', 0), ('settle',)]))
+    # expired / not yet valid / host certificate / source-address mismatch
+    for cn in ('C5', 'C10', 'C6', 'C7'):
+        w = E.default_world()
+        w['ak'] = {'alice': [dict(key='CA1', ca=True)]}
+        S.append(('cert_invalid_' + cn, w, [
+            ('req', dict(user='alice', method='publickey', key='cert:' + cn, signed=True)), ('settle',), ('complete', 0), ('settle',)]))
+    # a request whose auth task is created and a user switch arriving before that task runs (single loop turns)
+    w = E.default_world()
+    w['pk_cb_supported'] = True
+    w['cb_key'] = [['bob', 'K1']]
+    S.append(('switch_between_turns', w, [
+        ('req', dict(user='alice', method='none')), ('settle',), ('complete', 0), ('settle',),
+        ('req', dict(user='alice', method='publickey', key='K1', signed=True)), ('turn',),
+        ('req', dict(user='bob', method='none')), ('turn',), ('turn',), ('settle',), ('complete', 1), ('settle',)]))
     # channel open before authentication
     S.append(('gate', E.default_world(), [('msg', dict(kind='chan_open')), ('settle',)]))
     # password change: PASSWD_CHANGEREQ, then the change request is accepted
